@@ -988,6 +988,18 @@ impl<A: Subject> Runner<A> {
         } else if !fresh_fits && !zero_req {
           self.slow_paths += 1;
         }
+        // accounting (C20): what an allocation adds to discarded() was cut off from a segment it took from the list
+        // and is neither part of the returned buffer nor listed again
+        if or & O_DISCARDED != 0 && !self.tainted {
+          let removed: u64 = pre.nodes.iter().filter(|n| !post.nodes.iter().any(|p| p.0 == n.0)).map(|(_, w)| *w >> 32).sum();
+          // (the node word of a remainder that is listed again is itself accounted as discarded)
+          let added: u64 = post.nodes.iter().filter(|n| !pre.nodes.iter().any(|p| p.0 == n.0)).map(|(_, w)| *w >> 32).sum();
+          let dd = post.discarded.wrapping_sub(pre.discarded) as u64;
+          let budget = removed.saturating_sub(bcap as u64).saturating_sub(added);
+          if dd > budget {
+            v.push(Viol { flag: O_DISCARDED, class: "alloc-discarded-too-much".into(), msg: format!("{}: discarded {} -> {} (+{}) while the segments taken from the list hold {} data bytes, the returned buffer extent is {} and {} data bytes were listed again", op.short(), pre.discarded, post.discarded, dd, removed, bcap, added) });
+          }
+        }
         let pat = self.next_pat();
         if hcap > 0 && !a.read_only() && inside {
           self.fill(off, hcap, pat);
